@@ -25,6 +25,7 @@ import Y0.Model.CtfFactor
 import Y0.Model.CtfSimplify
 import Y0.Model.Tian
 import Y0.Model.Trso
+import Y0.Model.Dsl
 
 namespace Y0
 namespace CtfTr
@@ -41,9 +42,12 @@ structure Domain where
 
 def regular (g : MG Name) : List Name := g.nodes.filter (fun n => !isTnode n)
 
-/-- names of `expression.get_variables()` for a probability leaf -/
-def exprVarNames : Expr → List Name
-  | .prob _ c p => (c ++ p).flatMap fun v => v.name :: v.ivs.map (·.name)
+/-- `expression.get_variables()` for a probability leaf (the distributions of `domain_data` are
+`PopulationProbability` objects): every child and parent, and the `Intervention` objects of its subscripts.  The
+validators test `v in expression.get_variables()` for the graph vertices `v`, which are plain `Variable` objects: a
+vertex that occurs only as a subscript or only as a counterfactual variable does not count -/
+def exprVars : Expr → List Var
+  | .prob _ c p => (c ++ p).flatMap Var.iterVars
   | _ => []
 
 def popTag : Expr → Option Name
@@ -61,7 +65,7 @@ def vErr : Except Err Unit := .error (.invalidInput "ValueError")
 /-- the per-domain value checks shared by both validators -/
 def validateDomain (target : MG Name) (d : Domain) : Except Err Unit :=
   if !seteq' d.topo d.graph.nodes then vErr
-  else if !(regular d.graph).all (· ∈ exprVarNames d.pop) then vErr
+  else if !(regular d.graph).all (fun n => Ctf.mem' (Var.plain n) (exprVars d.pop)) then vErr
   else if !d.policy.all (· ∈ regular d.graph) then vErr
   else if !d.graph.isAcyclic then vErr
   else match validTopoList d.topo d.graph with
@@ -221,20 +225,229 @@ def ctfTRu (target : MG Name) (domains : List Domain) (event : Ctf.Event) : Exce
   | .error e => .error e
   | .ok () => ctfTRuCore target domains event
 
-/-- `transport_conditional_counterfactual_query`: validation, derivation of the event `D*` of the ancestral components
-that contain an outcome (`derive`), Algorithm 2 on it, normalisation (`line4`).  `derive` and `line4` are the
-bookkeeping-heavy parts of api.py and are parameters of the model. -/
-def ctfTR (derive : MG Name → Ctf.Event → Ctf.Event → Except Err Ctf.Event)
-    (line4 : Ctf.Event → Ctf.Event → Expr → Ctf.Event → Except Err (Option Answer))
-    (target : MG Name) (domains : List Domain) (outcomes conditions : Ctf.Event) : Except Err (Option Answer) :=
+/-! ### Algorithm 3
+
+Python `set`s have no order.  The places where an iteration order enters Algorithm 3:
+
+* the order of the derived event `D*` (iteration over a `set` of variables, and over the `set` of values of one outcome
+  variable): the model uses the order of the components computed by `Ctf.ancestralComponents`, and for the values of one
+  variable the order of first appearance in `outcomes`.  Algorithm 2 is then run on this list.  The order can reach the
+  RESULT only as a permutation (SIMPLIFY's output event, compared as a set; the factors of a `Product`, which
+  `Product.safe` sorts; the ranges of a `Sum`, a frozenset) — and the VERDICT in two places only:
+  (a) the transport loop of Algorithm 2 stops at the first FAIL, so a run in which one ctf-factor FAILs and another one
+      raises can end either way (only for domain graphs that lack a bidirected edge of the target: finding
+      `crash:sigmaTR-district-split`);
+  (b) `simplified_event_variable_names_to_values` of the final checks is a dict keyed by the BASE name, so when the
+      simplified event contains one name twice (two worlds), once with a value and once without, the last one wins:
+      `finalChecksOrderSensitive`.
+  Both are reported by the driver next to the answer so that the correspondence can tell them apart.
+* everything else (`outcome_and_conditioned_variable_names`, the ranges of the two sums, `get_variables()`) is used
+  through membership tests only. -/
+
+/-- `conditioned_variables`, `outcome_variables` (sets of event variables) -/
+def eventVars (e : Ctf.Event) : List Var := dedup' (e.map (·.1))
+
+/-- `outcome_variable_to_value_mappings[variable]`: the set of values the outcomes give to `variable` -/
+def outcomeValues (outcomes : Ctf.Event) (v : Var) : List Ctf.Val :=
+  dedup' ((outcomes.filter fun p => decide (p.1 = v)).map (·.2))
+
+/-- `outcome_and_conditioned_variable_names_to_values[Variable(n)]` -/
+def namesToValues (outcomes conditions : Ctf.Event) (n : Name) : List Ctf.Val :=
+  dedup' (((outcomes ++ conditions).filter fun p => decide (p.1.name = n)).map (·.2))
+
+/-- `{v.get_base() for v in …}` as names -/
+def eventNames (e : Ctf.Event) : List Name := dedup' (e.map (·.1.name))
+
+/-- line 2, first loop: the union of the ancestral components that contain an outcome VARIABLE (as a Python object:
+name and subscripts; the components store the variables as `get_ancestors_of_counterfactual` builds them, so an outcome
+`Y_x` whose subscript is not kept is not found: findings `crash:ctfTR-derived-event-rejected`,
+`value:outcome-lookup-miss`) -/
+def deriveVars (comps : List (List Var)) (outVars : List Var) : List Var :=
+  dedup' ((comps.filter fun c => c.any fun v => Ctf.mem' v outVars).flatten)
+
+/-- line 2, second loop: the values of `outcome_variable_to_value_mappings`, `None` for the other variables -/
+def deriveEvent (outcomes : Ctf.Event) (D : List Var) : Ctf.Event :=
+  D.flatMap fun v =>
+    if outcomes.any (fun p => decide (p.1 = v)) then (outcomeValues outcomes v).map fun x => (v, x)
+    else [(v, none)]
+
+/-- line 1 (`get_ancestral_components`) and `_transport_conditional_counterfactual_query_line_2`: the event `D*` in
+ctf-factor form and the graph vertices of `D*` -/
+def line2C (g : MG Name) (outcomes conditions : Ctf.Event) : Except Err (Ctf.Event × List Name) := do
+  let condVars := eventVars conditions
+  let outVars := eventVars outcomes
+  let comps ← Ctf.ancestralComponents g condVars (Ctf.unionVars condVars outVars)
+  let D := deriveVars comps outVars
+  let ev ← Ctf.convertEvent g (deriveEvent outcomes D)
+  pure (ev, dedup' (D.map (·.name)))
+
+/-- `simplified_event_variable_names_to_values[Variable(n)]` (a dict comprehension: the last pair with that name wins);
+only looked up for names that occur -/
+def lastValue (simplified : Ctf.Event) (n : Name) : Ctf.Val :=
+  match simplified.reverse.find? (fun p => p.1.name == n) with
+  | some p => p.2
+  | none => none
+
+/-- a name occurs in the simplified event both with and without a value: which of the two the dict keeps depends on the
+iteration order of a Python set -/
+def finalChecksOrderSensitive (simplified : Ctf.Event) : Bool :=
+  simplified.any fun p => simplified.any fun q => p.1.name == q.1.name && p.2.isSome && q.2.isNone
+
+/-- `variable in <set of base variables>` for a variable of an expression -/
+def plainIn (v : Var) (names : List Name) : Bool := Ctf.mem' v (names.map Var.plain)
+
+/-- `_validate_transport_conditional_counterfactual_query_line_4_output`: the five checks in order -/
+def finalChecks (simplified : Ctf.Event) (ocNames : List Name) (n2v : Name → List Ctf.Val) (noValues : List Name)
+    (domains : List Domain) (expr : Expr) (resultEvent : Ctf.Event) : Except Err Unit :=
+  -- 1. a variable that has a value in the simplified event is an outcome or a condition
+  if simplified.any (fun p => (lastValue simplified p.1.name).isSome && decide (p.1.name ∉ ocNames)) then
+    .error (.internal "KeyError")
+  -- 2. and its value is one of the values the query gives to that name
+  else if simplified.any (fun p => (lastValue simplified p.1.name).isSome && !Ctf.mem' p.2 (n2v p.1.name)) then
+    .error (.internal "KeyError")
+  -- 3. every variable of the expression is a vertex of D* without a value, an outcome / condition vertex, or a variable
+  --    of one of the domains' distributions
+  else if !(Expr.iterVars expr).all (fun v => plainIn v noValues || plainIn v ocNames ||
+      domains.any fun d => Ctf.mem' v (Expr.iterVars d.pop)) then
+    .error (.internal "KeyError")
+  -- 4. no `None` in the returned event
+  else if resultEvent.any (fun p => p.2.isNone) then .error (.internal "TypeError")
+  -- 5. every variable of the returned event occurs in the expression
+  else if !resultEvent.all (fun p => Ctf.mem' p.1 (Expr.iterVars expr)) then .error (.internal "KeyError")
+  else .ok ()
+
+/-- the expression of line 4: `Fraction(Sum.safe(Q, D*∖(Y∪X)), Sum.safe(Q, D*∖X))` (the dataclass constructor: no
+simplification, `ZeroDivisionError` for a `Zero()` denominator) -/
+def line4Expr (q : Expr) (dNames ocNames condNames : List Name) : Except Err Expr :=
+  TrDsl.mkFrac (TrDsl.sumSafe q ((diff' dNames ocNames).map Var.plain))
+    (TrDsl.sumSafe q ((diff' dNames condNames).map Var.plain))
+
+/-- the event of line 4: the outcomes, then the conditions whose vertex occurs in the expression -/
+def line4Event (expr : Expr) (outcomes conditions : Ctf.Event) : Ctf.Event :=
+  outcomes.map (fun p => (p.1.base, p.2)) ++
+    (conditions.filter fun p => Ctf.mem' p.1.base (Expr.iterVars expr)).map fun p => (p.1.base, p.2)
+
+/-- `_transport_conditional_counterfactual_query_line_4` -/
+def line4C (domains : List Domain) (outcomes conditions : Ctf.Event) (dNames : List Name) (q : Expr)
+    (simplified : Ctf.Event) : Except Err Answer := do
+  let ocNames := eventNames (conditions ++ outcomes)
+  let condNames := eventNames conditions
+  let expr ← line4Expr q dNames ocNames condNames
+  let resultEvent := line4Event expr outcomes conditions
+  finalChecks simplified ocNames (namesToValues outcomes conditions) (diff' dNames ocNames) domains expr resultEvent
+  pure (expr, some resultEvent)
+
+/-- lines 1-4 of Algorithm 3 after validation.  Line 3 is the full Algorithm 2 with its own validator on the derived
+event (`ValueError('empty list for the event')` when no outcome was found in the components); whatever is raised from
+here on is "another error" for C09 -/
+def ctfTRCore (target : MG Name) (domains : List Domain) (outcomes conditions : Ctf.Event) :
+    Except Err (Option Answer) := afterValidation do
+  let (dstar, dNames) ← line2C target outcomes conditions
+  match ← ctfTRu target domains dstar with
+  | none => pure none
+  | some (e, none) => pure (some (e, none))
+  | some (q, some simplified) => do pure (some (← line4C domains outcomes conditions dNames q simplified))
+
+/-- `transport_conditional_counterfactual_query` -/
+def ctfTR (target : MG Name) (domains : List Domain) (outcomes conditions : Ctf.Event) : Except Err (Option Answer) :=
   match validateC target domains outcomes conditions with
   | .error e => .error e
-  | .ok () => do
-    let dstar ← derive target outcomes conditions
-    match ← ctfTRu target domains dstar with
-    | none => pure none
-    | some (e, none) => pure (some (e, none))
-    | some (e, some ev) => line4 outcomes conditions e ev
+  | .ok () => ctfTRCore target domains outcomes conditions
+
+/-- does the verdict of the final checks depend on a set iteration order for this input? (reported by the driver) -/
+def ctfTROrderSensitive (target : MG Name) (domains : List Domain) (outcomes conditions : Ctf.Event) : Bool :=
+  match validateC target domains outcomes conditions with
+  | .error _ => false
+  | .ok () =>
+    match line2C target outcomes conditions with
+    | .error _ => false
+    | .ok (dstar, _) =>
+      match ctfTRu target domains dstar with
+      | .ok (some (_, some simplified)) => finalChecksOrderSensitive simplified
+      | _ => false
+
+/-! ### the crash classes of Algorithm 3 as decidable predicates on the input (hypotheses of
+`ctfTR_no_internal_error_partial`, Props/C09 §6; reported by the driver op `ctftr classes`) -/
+
+/-- the variables of `D*` before the conversion to ctf-factor form: the union of the ancestral components that contain an
+outcome variable -/
+def dstarVars (g : MG Name) (o c : Ctf.Event) : Except Err (List Var) := do
+  let comps ← Ctf.ancestralComponents g (eventVars c) (Ctf.unionVars (eventVars c) (eventVars o))
+  pure (deriveVars comps (eventVars o))
+
+/-- every outcome variable is found in the ancestral components under its own name (the complement is the class of the
+findings `crash:ctfTR-derived-event-rejected`, `crash:ctfTR-final-check`, `value:outcome-lookup-miss`) -/
+def OutcomesFound (g : MG Name) (o c : Ctf.Event) : Bool :=
+  match dstarVars g o c with
+  | .ok D => o.all fun p => Ctf.mem' p.1 D
+  | .error _ => false
+
+/-- `D*` names every graph vertex in one world only (no `Y_x` next to `Y_{x'}`) -/
+def DstarOneWorld (g : MG Name) (o c : Ctf.Event) : Bool :=
+  match dstarVars g o c with
+  | .ok D => decide ((D.map (·.name)).Nodup)
+  | .error _ => false
+
+/-- no outcome shares its graph vertex with a condition (the class for which the validator documents
+`NotImplementedError`; finding `value:outcome-also-condition`) -/
+def OutcomeNotCondition (o c : Ctf.Event) : Bool := o.all fun p => c.all fun q => p.1.name != q.1.name
+
+/-- the expression `Q` only mentions graph vertices (as plain variables) and variables of the domains' distributions -/
+def vocabCheck (target : MG Name) (ds : List Domain) (q : Expr) : Bool :=
+  (Expr.iterVars q).all fun v => Ctf.mem' v (target.nodes.map Var.plain) || ds.any fun d => Ctf.mem' v (Expr.iterVars d.pop)
+
+/-- run lines 1-3 and look at `Q` -/
+def qGoodCheck (target : MG Name) (ds : List Domain) (o c : Ctf.Event) : Bool :=
+  match line2C target o c with
+  | .ok (dstar, _) =>
+    match ctfTRu target ds dstar with
+    | .ok (some (q, some _)) => !TrDsl.isZero q && vocabCheck target ds q
+    | _ => true
+  | .error _ => true
+
+def popsCoverCheck (target : MG Name) (ds : List Domain) : Bool :=
+  target.nodes.all fun n => ds.any fun d => Ctf.mem' (Var.plain n) (Expr.iterVars d.pop)
+
+/-! ### the class of simplified events covered by the value theorem of Algorithm 2 (Y0/Props/C09Sound.lean); decidable,
+reported by the driver (`ctftr uncond`) so that the harness can tie the theorem to the oracle -/
+
+/-- every valueless item `(W_s, None)` becomes `(W_s, -W)`: the reading in which a valueless variable is a free variable
+of the answer, read at its base value -/
+def _root_.Y0.Ctf.fillEvent (q : Ctf.Event) : Ctf.Event :=
+  q.map fun p => (p.1, match p.2 with | some i => some i | none => some ⟨p.1.name, false⟩)
+
+/-- a STARRED literal subscript `+X` of the query names a vertex of `An(Y_*)` that is summed out: in the answer of
+Algorithm 2 the transported factor reads `X` at the bound value, not at `+X` (C19's `literalBound` is the unstarred half:
+there the factorised expression itself is already wrong) -/
+def starBound (q : Ctf.Event) (D : List Var) : Bool :=
+  q.any fun p => p.1.ivs.any fun i =>
+    i.star && decide (i.name ∈ D.map (·.name)) && decide (i.name ∉ q.map (·.1.name))
+
+/-- **the class of (simplified, filled) events the value theorem covers**: readable (no self-intervened variable, no
+variable intervening twice on one name), and outside `multiWorld` / `literalBound` / `outcomeParentValue` (C19) and
+`starBound` -/
+def ctfSoundClass (g : MG Name) (q : Ctf.Event) : Except Err Bool := do
+  let D ← Ctf.ancestralSet g q
+  pure (Ctf.readableQuery q && !Ctf.multiWorld D && !Ctf.literalBound q D && !Ctf.outcomeParentValue g q D &&
+    !starBound q D)
+
+/-- some valuation carries "the returned event's values": no name receives two different value symbols (as event value
+or as subscript) -/
+def readingExists (q : Ctf.Event) : Bool :=
+  let syms : List Iv := q.flatMap fun p => (match p.2 with | some i => [(⟨p.1.name, i.star⟩ : Iv)] | none => []) ++ p.1.ivs
+  syms.all fun a => syms.all fun b => a.name != b.name || a.star == b.star
+
+/-- is an answered unconditional query inside the hypotheses of `ctfTRu_sound_partial` (Y0/Props/C09Sound.lean) that are
+decidable predicates on the input: every item of the query has a value (the harness reads a valueless item of the QUERY
+as "equal to its base value", C19 and the theorem read it as "no constraint": the two agree when there is none), no
+self-intervened variable, the simplified event in `ctfSoundClass`, and a reading of the returned event's values exists -/
+def ctfTRuInClass (target : MG Name) (domains : List Domain) (event : Ctf.Event) : Bool :=
+  match ctfTRu target domains event with
+  | .ok (some (_, some ev)) =>
+      event.all (fun p => p.2.isSome) && event.all (fun p => !Ctf.selfIntervened p.1) &&
+        (match ctfSoundClass target ev with | .ok b => b | .error _ => false) &&
+        readingExists ev
+  | _ => false
 
 end CtfTr
 end Y0
